@@ -8,7 +8,7 @@ From Coq Require Import QArith Qreduction Permutation Lia.
 Require Import Gatery.Bits.
 Require Import Gatery.gen.EventOrder.
 Require Import Gatery.SchedDefs Gatery.SchedOrder Gatery.SchedClocks Gatery.SchedTime Gatery.SchedRegs Gatery.SchedRun
-               Gatery.SchedReset Gatery.SchedExamples.
+               Gatery.SchedReset Gatery.SchedInherit Gatery.SchedExamples.
 Import ListNotations.
 Local Close Scope Q_scope.
 
@@ -397,3 +397,50 @@ Example reset_hold_ex :
   mults_positive (cfg_clocks ex_cfg) /\
   map (fun s => (s, reset_hold_time ex_cfg s)) (reset_pins ex_cfg) = [(0, (1 # 3)%Q); (1, (1 # 7)%Q)].
 Proof. exact ex_hold. Qed.
+
+(* ========================================================================= *)
+(** * Inheritance of unset ClockConfig fields (frontend Clock::deriveClock / applyConfig) *)
+
+(* resolve_clocks transcribes what hlim::DerivedClock's constructor (copy from the parent) followed by
+   gtry::Clock::applyConfig (override what is set) leave in each clock, in creation order.  Every inherited attribute
+   -- name, reset name, trigger edge, phase synchronicity, reset type, reset polarity, initializeRegs -- equals
+   `effective`, ... *)
+Theorem config_inheritance ccs i c :
+  configs_wf ccs -> nth_error (resolve_clocks ccs) i = Some c ->
+  ck_name c = effective cc_name 0%N ccs i /\
+  ck_rstname c = effective cc_rstname 0%N ccs i /\
+  ck_trig c = effective cc_trig RISING ccs i /\
+  ck_phasesync c = effective cc_phasesync true ccs i /\
+  ck_rst c = effective cc_rst RST_SYNC ccs i /\
+  ck_active_high c = effective cc_active_high true ccs i /\
+  ck_initregs c = effective cc_initregs true ccs i.
+Proof. exact (resolved_attributes ccs i c). Qed.
+Print Assumptions config_inheritance.
+
+(* ... which is the nearest explicitly set value up the derivation chain, else the default -- and nothing else *)
+Theorem config_inheritance_nearest {A} (get : clock_config -> option A) (dflt : A) ccs i :
+  configs_wf ccs -> i < length ccs ->
+  nearest get dflt ccs i (effective get dflt ccs i) /\
+  forall v, nearest get dflt ccs i v -> v = effective get dflt ccs i.
+Proof.
+  exact (fun Hwf Hi => conj (effective_nearest get dflt ccs i Hwf Hi)
+                            (fun v Hv => nearest_unique get dflt ccs i v _ Hv (effective_nearest get dflt ccs i Hwf Hi))).
+Qed.
+Print Assumptions config_inheritance_nearest.
+
+(* parent link, frequency / multiplier (unset multiplier = 1) and the minimum reset time / cycles are NOT inherited *)
+Theorem config_own_fields ccs i c cc :
+  nth_error (resolve_clocks ccs) i = Some c -> nth_error ccs i = Some cc ->
+  ck_parent c = cc_parent cc /\ ck_freq c = match cc_freq cc with Some f => f | None => 1%Q end /\
+  ck_minrsttime c = cc_minrsttime cc /\ ck_minrstcycles c = cc_minrstcycles cc.
+Proof. exact (resolved_own_fields ccs i c cc). Qed.
+Print Assumptions config_own_fields.
+
+Example config_inheritance_ex :
+  let ccs := [ mk_clock_config None (Some 3%Q) (Some 0%N) (Some 0%N) (Some FALLING) None (Some RST_ASYNC) (Some false) None 0%Q 0%N;
+               mk_clock_config (Some 0) None None None None None None None None 0%Q 0%N;
+               mk_clock_config (Some 1) (Some 2%Q) (Some 5%N) None (Some RISING) None (Some RST_SYNC) None (Some false) 0%Q 0%N ] in
+  map (fun c => (ck_trig c, ck_rst c, ck_active_high c, ck_initregs c, ck_name c, ck_freq c)) (resolve_clocks ccs) =
+  [ (FALLING, RST_ASYNC, false, true, 0%N, 3%Q); (FALLING, RST_ASYNC, false, true, 0%N, 1%Q);
+    (RISING, RST_SYNC, false, false, 5%N, 2%Q) ].
+Proof. exact inherit_ex. Qed.
